@@ -26,6 +26,11 @@ Three flavours observe the same boundary:
             mapping, and through ``iter_paragraphs``), several relationship
             fields per paragraph.
 
+The history flavour is generated last, so its in-place edits cannot influence
+the other flavours.  Witnesses of the ``rt`` flavour carry ``repeat: 2`` (the
+same structure is round-tripped twice on replay), so that a defect which needs
+an earlier call in the same process still reproduces from a fresh interpreter.
+
 The workload contains a complete shape matrix every run: each of the five
 relational operators (and "no version") x every subset of {arch qualifier,
 arch list, restriction formula} x five positions (alone / first / middle / last
